@@ -73,12 +73,22 @@ class LazyReplies:
         self.fn = fn
 
 
-def run_mode(mode, peer, kind, base, maxrep, reply_fn, env, use_fetch=False, allow_bulk=True):
+def run_mode(mode, peer, kind, base, maxrep, reply_fn, env, use_fetch=False, allow_bulk=True, pre=False):
     """like walks.run_* but the agent computes each reply from the request"""
     out = walks.Outcome()
     v1 = peer.kind == "v1"
 
+    PRE_BASE = "1.3.6.1.4.1.99999.7"
+    in_pre = {"on": False}
+
+    def pre_page(req):
+        """a full page below the base of the walk that is abandoned before the walk under test"""
+        names = [tuple(req["varbinds"][0][0]) + (i,) for i in range(1, 7)]
+        return [peer.response(req, [ber.varbind(n, ber.INT(9000 + i)) for i, n in enumerate(names)])]
+
     def dgs(req):
+        if in_pre["on"]:
+            return pre_page(req)
         rep = reply_fn(req)
         if isinstance(rep, tuple) and rep and rep[0] == "v1end":
             return [peer.response(req, walks.vb_bytes(rep[1]), error_status=2, error_index=1)]
@@ -116,11 +126,18 @@ def run_mode(mode, peer, kind, base, maxrep, reply_fn, env, use_fetch=False, all
         conv = e2e.Conv(peer, env)
 
         def script(op, req):
-            out.requests.append(req)
+            if not in_pre["on"]:
+                out.requests.append(req)
             return dgs(req)
         shim = e2e.SockShim(conv, script)
         from gufo.snmp.sync_client.getbulk import GetBulkIter
         from gufo.snmp.sync_client.getnext import GetNextIter
+        if pre and not v1:
+            # the caller starts another GetBulk walk and leaves it after two rows (`break`)
+            in_pre["on"] = True
+            pit = GetBulkIter(shim, PRE_BASE, 6)
+            e2e.ncall(lambda: (next(pit), next(pit)))
+            in_pre["on"] = False
         if use_fetch:
             from gufo.snmp import SnmpVersion
             from gufo.snmp.sync_client import SnmpSession
@@ -144,7 +161,8 @@ def run_mode(mode, peer, kind, base, maxrep, reply_fn, env, use_fetch=False, all
 
     def script(dg):
         req = peer.decode(dg)
-        out.requests.append(req)
+        if not in_pre["on"]:
+            out.requests.append(req)
         return dgs(req)
 
     async def main(port):
@@ -154,13 +172,18 @@ def run_mode(mode, peer, kind, base, maxrep, reply_fn, env, use_fetch=False, all
         kw = dict(timeout=0.2, max_repetitions=maxrep, allow_bulk=allow_bulk)
         if peer.kind == "v3":
             s = peer.state
-            ak = (Md5Key if s.auth_alg == 1 else Sha1Key)(s.auth_secret) if s.auth_alg else None
-            pk = (DesKey if s.priv_alg == 1 else Aes128Key)(s.priv_secret) if s.priv_alg else None
-            sess = SnmpSession("127.0.0.1", port=port, engine_id=s.engine_id,
-                               user=User(s.user.decode(), auth_key=ak, priv_key=pk), **kw)
+            sess = SnmpSession("127.0.0.1", port=port, engine_id=s.engine_id, user=e2e.client_user(s), **kw)
         else:
             sess = SnmpSession("127.0.0.1", port=port, community=peer.community,
                                version=SnmpVersion.v1 if v1 else SnmpVersion.v2c, **kw)
+        if pre and not v1:
+            in_pre["on"] = True
+            k = 0
+            async for _ in sess.getbulk(PRE_BASE, 6):
+                k += 1
+                if k >= 2:
+                    break
+            in_pre["on"] = False
         itr = sess.fetch(base) if use_fetch else (sess.getnext(base) if kind == "next" else sess.getbulk(base, maxrep))
         async for item in itr:
             out.yields.append(item)
@@ -201,11 +224,14 @@ def run(chk, model_ok=True):
             allow_bulk = rng.random() < 0.7
             kind = "next" if v1 else rng.choice(["next", "bulk"])
             reply_fn = agent_replies(mib, base, kind, maxrep, cap, v1)
-            out = run_mode(mode, peer, kind, values.dotted(base), maxrep, reply_fn, env, use_fetch, allow_bulk)
+            # sometimes the caller has abandoned another GetBulk walk just before (rows left in its buffer)
+            pre = mode != "raw" and rng.random() < 0.2
+            out = run_mode(mode, peer, kind, values.dotted(base), maxrep, reply_fn, env, use_fetch, allow_bulk, pre)
             n_walks += 1
             n_exch += len(out.requests)
             want = subtree(mib, base)
             detail = {"mode": mode, "session": peer.label, "kind": kind, "fetch": use_fetch, "allow_bulk": allow_bulk,
+                      "abandoned_walk_before": pre,
                       "base": values.dotted(base), "maxrep": maxrep, "agent_cap": cap,
                       "mib": [values.dotted(a) for a, _ in mib]}
             got = [(o, e2e.canon(v)) for o, v in out.yields]
